@@ -272,6 +272,11 @@ def run(ctx, model_ok=True):
             if "rescaling intervals" in str(e):
                 ctx.tally("skipped_K2_rescaling_assert")
                 continue
+            import traceback
+            if "reallocate_unphased" in traceback.format_exc():
+                # closing assertion of reallocate_unphased (NaN phase / K8): belongs to C23 / C35
+                ctx.tally("skipped_reallocate_unphased_assert")
+                continue
             ctx.oracle_fail("dating-raised:AssertionError", repr(e)[:300], rp)
             continue
         except Exception as e:
